@@ -151,7 +151,11 @@ func vxC09Oracle(job vxJob, o vxOutcome) (sig, msg string) {
 	cls := func() string {
 		var parts []string
 		for _, f := range job.Faults {
-			parts = append(parts, f.Component+":"+f.Kind)
+			p := f.Component + ":" + f.Kind
+			if f.Persist {
+				p += "(persistent)"
+			}
+			parts = append(parts, p)
 		}
 		fk := "no fault"
 		if len(parts) > 0 {
@@ -234,7 +238,7 @@ func TestVX_C09(t *testing.T) {
 	for _, c := range comps {
 		for _, k := range c.kinds {
 			for w := 0; w < 5; w++ {
-				singles = append(singles, vxFault{c.c, k, w})
+				singles = append(singles, vxFault{Component: c.c, Kind: k, Window: w})
 			}
 		}
 	}
@@ -269,6 +273,31 @@ func TestVX_C09(t *testing.T) {
 					}
 					_ = si
 					add(f)
+				}
+				// faults that are still active when the daemon is told to stop
+				for _, c := range comps {
+					for _, k := range c.kinds {
+						if heavy && !mc.Thorough() && k != c.kinds[0] {
+							continue
+						}
+						add(vxFault{Component: c.c, Kind: k, Window: 2, Persist: true})
+					}
+				}
+				// a read-side fault (control error candidates) together with a write-side fault in the SAME control period:
+				// the restoration that follows a control error then fails as well
+				for _, rc := range comps[:3] {
+					for _, rk := range rc.kinds {
+						for _, wc := range comps[3:] {
+							for _, wk := range wc.kinds {
+								for _, w := range []int{0, 2} {
+									if !mc.Thorough() && (heavy || (rk != "error" && rk != "blank")) {
+										continue
+									}
+									add(vxFault{Component: rc.c, Kind: rk, Window: w}, vxFault{Component: wc.c, Kind: wk, Window: w})
+								}
+							}
+						}
+					}
 				}
 				// pairs: every pair of single faults (thorough: on all combos; quick: on 4 representative combos, windows 0..2)
 				pairCombo := (mc.Thorough() && !strings.HasPrefix(cv, "func2pid-")) || (ci%9 == 2 && !heavy) || (cv == "func2pid-delta" && fk == "hwmon" && sk == "file")
